@@ -145,6 +145,49 @@ def project(v, depth=0):
 # the package under test
 # ----------------------------------------------------------------------------------------------
 
+def lenient_converter(converters, types):
+    """A user-supplied converter with the package's hooks plus the application's own tolerant ones."""
+    import enum
+    import cattrs
+    conv = converters.get_converter(cattrs.Converter())
+    for name in dir(types):
+        obj = getattr(types, name)
+        if isinstance(obj, type) and issubclass(obj, enum.Enum) and obj is not enum.Enum:
+            def tolerant(value, _, cls=obj):
+                try:
+                    return cls(value)
+                except ValueError:
+                    return next(iter(cls))
+            conv.register_structure_hook(obj, tolerant)
+            conv.register_unstructure_hook(obj, lambda v: "lenient")
+    conv.register_structure_hook(int, lambda v, _: 0)
+    conv.register_structure_hook(str, lambda v, _: "lenient")
+    conv.register_unstructure_hook(int, lambda v: 0)
+    conv.register_unstructure_hook(str, lambda v: "lenient")
+    return conv
+
+
+class Warmed:
+    """Every call goes to the lenient converter first (its result is discarded), then to the pristine one."""
+
+    def __init__(self, lenient, pristine):
+        self.lenient, self.pristine = lenient, pristine
+
+    def structure(self, data, cls):
+        try:
+            self.lenient.structure(data, cls)
+        except Exception:  # noqa: BLE001
+            pass
+        return self.pristine.structure(data, cls)
+
+    def unstructure(self, obj, cls=None):
+        try:
+            self.lenient.unstructure(obj, cls)
+        except Exception:  # noqa: BLE001
+            pass
+        return self.pristine.unstructure(obj, cls)
+
+
 class Package:
     def __init__(self):
         from lsprotocol import converters, types
@@ -162,6 +205,10 @@ class Package:
             if cfg == "nodetail":        # a user-supplied converter with detailed validation switched off
                 import cattrs
                 self._conv = self.converters.get_converter(cattrs.Converter(detailed_validation=False))
+            elif cfg == "after_lenient":
+                # a pristine converter in a process where the application ALSO uses a converter it customised to be
+                # lenient (undeclared enum values, any int, any str accepted), and uses it first on every input
+                self._conv = Warmed(lenient_converter(self.converters, self.types), self.converters.get_converter())
             elif cfg == "second":        # not the first converter of the process
                 self.converters.get_converter()
                 self._conv = self.converters.get_converter()
